@@ -12,10 +12,11 @@ import vf  # noqa
 props = [json.loads(l) for l in open(os.path.join(here, "properties.jsonl"))]
 checks = []
 na = []
+ready = set(json.load(open(os.path.join(here, "ready.json"))))
 for p in props:
     pid = p["id"]
     path = os.path.join(here, "vf", "props", pid + ".py")
-    if not os.path.exists(path):
+    if not os.path.exists(path) or pid not in ready:
         na.append({"property_id": pid, "reason": "check not built yet (runtime-monitoring design exists in DESIGN.md section 4)"})
         continue
     mod = importlib.import_module("vf.props." + pid)
